@@ -8,6 +8,7 @@ configuration.
 """
 
 import hashlib
+import os
 import numpy as np
 from pathlib import Path
 
@@ -67,10 +68,16 @@ class GreensFunctionCache:
         )
         path = self.cache_dir / f"{key}.npz"
         if path.exists():
+            try:
+                with np.load(path) as data:
+                    grid = (data["X"], data["Y"], data["Z"])
+                    result = grid, data["conc"], data["flx"]
+            except Exception as e:
+                # truncated or corrupt entry (e.g. interrupted run): a miss
+                logger.warning("Ignoring unreadable cache entry %s: %s", path, e)
+                return None
             logger.debug("Cache hit: %s", key[:12])
-            data = np.load(path)
-            grid = (data["X"], data["Y"], data["Z"])
-            return grid, data["conc"], data["flx"]
+            return result
         logger.debug("Cache miss: %s", key[:12])
         return None
 
@@ -94,7 +101,12 @@ class GreensFunctionCache:
         )
         path = self.cache_dir / f"{key}.npz"
         X, Y, Z = grid
-        np.savez(path, X=X, Y=Y, Z=Z, conc=conc, flx=flx)
+        # write to a temporary file and rename, so that an interrupted run
+        # never leaves a truncated entry under the final name
+        tmp = self.cache_dir / f".{key}.{os.getpid()}.tmp"
+        with open(tmp, "wb") as f:
+            np.savez(f, X=X, Y=Y, Z=Z, conc=conc, flx=flx)
+        os.replace(tmp, path)
         logger.debug("Cached: %s", key[:12])
 
     def clear(self):
